@@ -77,7 +77,18 @@ var classes = []payloadClass{
 		return pick(r, "\xc0\xbcscript\xc0\xbe"+m+"\xc0\xbc/script\xc0\xbe", "\xe0\x80\xbcb\xe0\x80\xbe"+m, "\x80<b>"+m+"</b>", "\xe2\x80<b "+m+">", "\xf0<b\xf0>"+m, "\xff\xfe<"+m+">", "\"\xc2><"+m+">", "\xed\xa0\x80<i>"+m)
 	}},
 	{"utf7", func(r *rand.Rand, m string) string {
-		return pick(r, "+ADw-script+AD4-alert("+m+")+ADw-/script+AD4-", "+ACIAPgA8-"+m+"+AD4-", "+/v8 +ADw-"+m+"+AD4-", "+ADw-"+m+"+AD4-<b>x</b>")
+		return pick(r, "+ADw-script+AD4-alert("+m+")+ADw-/script+AD4-", "+ACIAPgA8-"+m+"+AD4-", "+/v8 +ADw-"+m+"+AD4-", "+ADw-"+m+"+AD4-<b>x</b>",
+			m+"+ADw-img src+AD0-x onerror+AD0-alert(1)+AD4-", m+"+ADwAcwBjAHIAaQBwAHQAPg-x+ADwALwBzAGMAcgBpAHAAdAA+-", m+"+ACI- onmouseover+AD0AIg-x", m+"+ADw", "+-"+m+"+AD4")
+	}},
+	{"iso-2022-jp", func(r *rand.Rand, m string) string {
+		// escape sequences that switch a sniffing browser into a double-byte / katakana / JIS-Roman mode: harmless
+		// in a page declared as UTF-8, but without a declaration the template's own markup after them is swallowed
+		return pick(r, m+"\x1b$B", m+"\x1b$@", m+"\x1b(I", m+"\x1b(J\\~", m+"\x1b$B\"><script>x</script>", "<b>"+m+"</b>\x1b$B<i>", m+"\x1b$Bab\x1b(B<\x1b(Bscript>",
+			"\"\x1b$B>"+m, m+"<\x1b(Bscript\x1b(B>", m+"\x1b$@\x1b(B", m+" \x1b(I<>\"'\x1b(B ok", "\x1b(B"+m+"\x1b$B", m+"\x1b$", m+"\x1b$(D", m+"\x1b\x1b$B", m+"\x0e<\x0f")
+	}},
+	{"utf16-and-bom-prefixes", func(r *rand.Rand, m string) string {
+		return pick(r, "\xff\xfe<\x00s\x00c\x00r\x00i\x00p\x00t\x00>\x00"+m, "\xfe\xff\x00<\x00b\x00>"+m, "\xef\xbb\xbf<b>"+m, "+/v8-+ADw-b+AD4-"+m, "+/v9 "+m+"+ADw-i+AD4-", "\x00\x00\xfe\xff"+m+"<b>",
+			"\xc0\xbcscript\xc0\xbe"+m, "\xe0\x80\xbcscript\xe0\x80\xbe"+m, "\xf0\x80\x80\xbcb\xf0\x80\x80\xbe"+m, "\xc0\xa2\xc0\xbe\xc0\xbc"+m+"\xc0\xbe")
 	}},
 	{"unicode-tricks", func(r *rand.Rand, m string) string {
 		return pick(r, "\uff1cscript\uff1e"+m+"\uff1c/script\uff1e", "\u202e"+m+"<b>\u202c", m+"\u2028<b>\u2029</b>", "\ufeff<b "+m+">", "\u00ad<\u00adscript>"+m, "\u0130<\u212a "+m+">", "\ufe64"+m+"\ufe65<i>")
@@ -132,14 +143,14 @@ var classes = []payloadClass{
 // becomes the letter 'a' and every C0 control / DEL becomes 0x01 (still a control character for
 // net/url, so the request takes the same branch, but never white space or NUL for an HTML parser).
 // What is kept: ASCII letters and digits, bytes >= 0x80, and the URL-structural characters
-// % . - _ ~ : / ? # @ + ; , which are inert in HTML text and in attribute values once < > " ' & = ` and
+// % . - _ ~ : / ? # @ ; , which are inert in HTML text and in attribute values once < > " ' & = ` and
 // white space are gone. A twin that begins with a dangerous URL scheme gets the scheme word replaced.
 func neutral(p string) string {
 	b := []byte(p)
 	for i, c := range b {
 		switch {
 		case c >= 'a' && c <= 'z', c >= 'A' && c <= 'Z', c >= '0' && c <= '9', c >= 0x80:
-		case c == '%' || c == '.' || c == '-' || c == '_' || c == '~' || c == ':' || c == '/' || c == '?' || c == '#' || c == '@' || c == '+' || c == ';' || c == ',':
+		case c == '%' || c == '.' || c == '-' || c == '_' || c == '~' || c == ':' || c == '/' || c == '?' || c == '#' || c == '@' || c == ';' || c == ',':
 		case c < 0x20 || c == 0x7f:
 			b[i] = 0x01
 		default:
